@@ -101,6 +101,14 @@ def judge_shape(kind, p, tol, els, sc):
         if abs(abs(sw) - 2 * math.pi) > 1e-6:
             return f'circle is not traversed exactly once: swept angle {sw}'
         return None
+    if kind == 'ellipse_aff':
+        # an ellipse given as the image of the unit circle under the affine map [a b c d e f] (Ellipse::from_affine, Affine * Ellipse):
+        # the ideal curve has its centre at (e, f), the singular values as semi-axes and the first left singular vector as axis direction
+        a, b, c, d, e, f = p
+        sxx, sxy, syy = a * a + c * c, a * b + c * d, b * b + d * d
+        rot = 0.5 * math.atan2(2 * sxy, sxx - syy)
+        half, dif = 0.5 * (sxx + syy), 0.5 * math.hypot(sxx - syy, 2 * sxy)
+        kind, p = 'ellipse', (e, f, math.sqrt(half + dif), math.sqrt(max(half - dif, 0.0)), rot)
     if kind in ('ellipse', 'arc'):
         if kind == 'ellipse':
             cx, cy, rx, ry, rot = p
@@ -236,6 +244,18 @@ def generate(rng, tier):
         rx, ry = r, r * 10.0 ** rng.uniform(-1.5, 1.5)
         yield outline('ellipse', c + [rx, ry, rng.uniform(-4, 4)], rnd_tol(rng, max(rx, ry)), 'ellipse')
         yield outline('arc', c + [rx, ry, rnd_angle(rng), rnd_angle(rng), rng.choice([0.0, rng.uniform(-4, 4)])], rnd_tol(rng, max(rx, ry)), 'arc')
+        # ellipses that exist only as affine maps (Ellipse::from_affine / Affine * Ellipse): mirrored and half-turned axis-aligned ones (exactly
+        # diagonal linear part with negative entries), exact quarter turns (anti-diagonal), and generic maps of either orientation
+        sg = lambda: rng.choice([-1.0, 1.0])
+        how = rng.choice(['diag', 'diag', 'antidiag', 'generic'])
+        if how == 'diag':
+            aff = [sg() * rx, 0.0, 0.0, sg() * ry] + c
+        elif how == 'antidiag':
+            aff = [0.0, sg() * rx, sg() * ry, 0.0] + c
+        else:
+            th, sh = rng.uniform(-4, 4), rng.uniform(-0.8, 0.8)
+            aff = [rx * math.cos(th), rx * math.sin(th), sg() * ry * (-math.sin(th) + sh * math.cos(th)), ry * (math.cos(th) + sh * math.sin(th))] + c
+        yield outline('ellipse_aff', aff, rnd_tol(rng, max(rx, ry)), 'ellipse-affine-' + how)
         w, h = 10.0 ** rng.uniform(-1, 3), 10.0 ** rng.uniform(-1, 3)
         rad = [rng.choice([0.0, rng.uniform(0, 1) * min(w, h), rng.uniform(0, 2) * max(w, h), -rng.uniform(0, 1) * min(w, h)]) for _ in range(4)]
         x0, y0 = rng.uniform(-10, 10), rng.uniform(-10, 10)
